@@ -113,6 +113,8 @@ def run(ctx):
                                  f"exploring_on_start={st.get('exploring_on_start')}"))
                 break
         ks = sorted(set([1, 2, len(its) // 2, len(its) - 1]) & set(range(1, len(its))))
+        if p in first and len(its) <= 400:
+            ks = list(range(1, len(its)))       # the hand-written programs: every iteration
         for k in ks:
             it = its[k]
             if "start" not in it:
